@@ -1465,6 +1465,19 @@ fn parse_workspace_edit(p: &Program, v: &Value) -> Result<Edits, String> {
     Ok(out)
 }
 
+/// A workspace edit with the edits of every file sorted (their order carries no meaning).
+fn canon_edit(v: &Value) -> Value {
+    let mut v = v.clone();
+    if let Some(changes) = v.get_mut("changes").and_then(|c| c.as_object_mut()) {
+        for (_, edits) in changes.iter_mut() {
+            if let Some(a) = edits.as_array_mut() {
+                a.sort_by_key(|e| e.to_string());
+            }
+        }
+    }
+    v
+}
+
 fn rename_request(s: &mut Server, file: &str, line: u32, ch: u32, name: &str) -> Result<Value, Death> {
     let mut params = pos_params(file, line, ch);
     params["newName"] = json!(name);
@@ -1519,7 +1532,23 @@ fn rename_checks(run: &Run, p: &Program, shared: &mut Server, asm0: &Asm) -> Res
                 // -- the rename itself, on a fresh server
                 let mut s = open_server(&p.files)?;
                 let v = rename_request(&mut s, &p.files[o.file].0, o.line, ch, new_name);
+                // the request changes nothing (the client has not applied anything yet): asked again, the
+                // server has to return the same edit
+                let again = if v.is_ok() { Some(rename_request(&mut s, &p.files[o.file].0, o.line, ch, new_name)) } else { None };
                 drop(s);
+                if let (Ok(first), Some(second)) = (&v, &again) {
+                    let same = match second {
+                        Ok(second) => canon_edit(first) == canon_edit(second),
+                        Err(_) => false,
+                    };
+                    if !same {
+                        run.finding(
+                            sig_of("rename", &resolved_label(p, &o.resolved), &o.level, &o.form, o.wrap, "second-request-differs", false),
+                            format!("{}: the same request repeated on the same server returns {:?} instead of {}", at, second.as_ref().map(|x| x.to_string()), first),
+                            case.clone(),
+                        );
+                    }
+                }
                 let v = match v {
                     Ok(v) => v,
                     Err(d) => {
